@@ -206,6 +206,12 @@ def tpv_post(ptype, dtype, scale):
             want = fv_at(dom, z3.If(v < 0, v + n, v))
             out.append(('C15._to_parameter_value.fixes_domain.' + T, same_value(val, want)))
         else:
+            if T == 'INTEGER' and getattr(run, 'arg_log', None):
+                # proof hint (checked, then used): instantiate the minimality of np.argmin at the position of v itself
+                which, a, idx = run.arg_log[-1]
+                j0 = z3.ToInt(xreal.r(v)) - dom.lo
+                out.append(('C15._to_parameter_value.fixes_domain.%s.hint_argmin_at_v' % T,
+                            z3.Implies(SK.member(dom, v), z3.Not(xreal.lt(a.at(j0), a.at(idx)))), 'lemma'))
             out.append(('C15._to_parameter_value.fixes_domain.' + T, z3.Implies(SK.member(dom, v), same_value(val, v))))
         return out
     return post
